@@ -266,7 +266,15 @@ func (v *Validator) UpdateDelegationFrom(d *DelegationFrom) (flag params.CurdFla
 	empty := d.Empty()
 	i := v.Delegations.Search(d.Delegator)
 	oldLen := v.Delegations.Len()
-	if i == oldLen || v.Delegations[i].Delegator != d.Delegator {
+	exist := i < oldLen && v.Delegations[i].Delegator == d.Delegator
+	if exist || !empty {
+		// copy on write: PartialCopy shares the slice with the validator it was copied
+		// from (which may be the journal's old value), so never write into that array.
+		own := make(DelegationFroms, oldLen, oldLen+1)
+		copy(own, v.Delegations)
+		v.Delegations = own
+	}
+	if !exist {
 		// not exist
 		if empty {
 			return params.Noop
